@@ -501,7 +501,7 @@ def crash_case(base, scenario, k, mode, torn, blob_of, with_purge):
 
 
 def run_scenario(args):
-    scenario, modes, purge_every = args
+    scenario, modes, purge_every, stride = args
     sc.install()
     patch_injection_points()
     INJ.disarm()
@@ -513,7 +513,7 @@ def run_scenario(args):
         execs = aud0.execs + 1
         n = 0
         points = []
-        for k in range(1, len(labels) + 1):
+        for k in range(1, len(labels) + 1, stride):
             variants = [(m, False) for m in modes]
             if labels[k - 1] == 'pickle.dump':
                 variants += [(m, True) for m in modes]
@@ -551,7 +551,7 @@ def _signature(f):
     sig = f['signature']
     case = f.get('case', {})
     if case.get('kind') == 'crash':
-        sig += f"@{case['point']}{'(torn)' if case['torn'] else ''}/{case['mode']}"
+        sig += f"@{case['point']}{'(torn)' if case['torn'] else ''}"
     return sig
 
 
@@ -560,12 +560,13 @@ def run(tier: str, seed: int) -> dict:
     rng = random.Random(seed)
     enum = list(enumerated_histories())
     if tier == 'quick':
-        hist = enum[::4] + [random_history(rng) for _ in range(25)]
-        scen = [(s, ['raise', 'exit'] if i in (1, 2) else ['exit'], 5) for i, s in enumerate(SCENARIOS)]
+        hist = enum[::4] + [random_history(rng) for _ in range(12)]
+        # the overwrite scenario at every k in both modes; two more at every 2nd k
+        scen = [(SCENARIOS[1], ['raise', 'exit'], 0, 1), (SCENARIOS[0], ['raise'], 4, 2), (SCENARIOS[2], ['raise'], 0, 2)]
         procs = 1
     else:
         hist = enum + [random_history(rng) for _ in range(1500)]
-        scen = [(s, ['raise', 'exit'], 2) for s in SCENARIOS + [random_scenario(rng) for _ in range(60)]]
+        scen = [(s, ['raise', 'exit'], 2, 1) for s in SCENARIOS + [random_scenario(rng) for _ in range(60)]]
         procs = min(16, os.cpu_count() or 1)
     if procs > 1:
         import multiprocessing
@@ -587,11 +588,11 @@ def run(tier: str, seed: int) -> dict:
             viol.add(f['clause'], f['signature'], {'kind': 'history', 'ops': case['ops'][: f['step'] + 1]}, f['observed'], f['expected'])
     crash_cases = 0
     point_kinds = set()
-    for (scenario, modes, _), (found, n, ncases, labels) in zip(scen, s_results):
+    for (scenario, modes, _, stride), (found, n, ncases, labels) in zip(scen, s_results):
         execs += n
         crash_cases += ncases
         point_kinds.update(labels)
-        for k in range(len(labels)):
+        for k in range(0, len(labels), stride):
             for m in modes:
                 sigs.add(repr((scenario, k, m)))
         for f in found:
@@ -602,7 +603,8 @@ def run(tier: str, seed: int) -> dict:
         'rule': (
             f'{len(hist)} histories ({"every 4th of the" if tier == "quick" else "all"} 64 enumerated [update, update at one of 4 places, purge] '
             'histories over contents {0,1}^2, the rest seeded random with 2..5 operations) audited after every operation; '
-            f'{len(scen)} crash scenarios x every intercepted call of the victim update x crash modes = {crash_cases} crash runs '
+            f'{len(scen)} crash scenarios x every intercepted call of the victim update (quick tier: every call in both modes for the '
+            f'overwrite scenario, every 2nd call in exception mode for two more) x crash modes = {crash_cases} crash runs '
             f'(intercepted call kinds seen: {sorted(point_kinds)}), each followed by reopen, audit, retry, audit (and purge + audit on a subset); '
             '"cases" = updates/removes/purges/reopens/crash runs executed on the real code, "distinct" = distinct histories + distinct '
             '(scenario, crash point, mode) triples'
